@@ -29,6 +29,12 @@ EXACT_BASES = [G("U3", 0.3, 0.3, "s:pi/3"), G("U3", "s:pi", "s:pi/3", 0.5), G("R
 ALG = [["dagger"], ["controlled", 1], ["controlled", 2], ["power", 2], ["power", 3], ["power", -1], ["power", 0]]
 TRANS = [["power", "1/2"], ["power", "1/3"], ["exp"]]
 NEWP = {1: (0.9,), 2: (0.9, -0.4), 3: (0.9, -0.4, 1.7)}
+# further replacement tuples: exact zeros (a new value of 0 is a value), integers, and a Hermitian point
+NEWP_MORE = {1: [(0,), (0.0,), (3,)], 2: [(0, -0.4), (0.9, 0.0), (0, 0)], 3: [(0, -0.4, 1.7), (0.9, 0.0, 0), (0, 0, 0)]}
+import math as _math
+# bases sitting at special points of their parameter space (identity / Hermitian matrices): flags computed there must not survive replace_params
+SPECIAL_BASES = [G("custom1q", _math.pi), G("custom1q", 0), G("custom2p", 0, 0), G("custom1p", 0, 0.4), G("RZ", 0), G("PHASE", _math.pi), G("RX", 2 * _math.pi), G("U3", 0, 0, 0),
+                 G("CPHASE", 0), G("MS", 0, 0), G("GPi", 0), G("XY", 0.0)]
 
 
 def apply(g, m):
@@ -153,7 +159,7 @@ def chain_case(case):
         M = obs
     # replace_params: modifying the gate built with new parameters == replacing the parameters of the modified gate
     if base_params and all(isinstance(p, (int, float)) for p in base_params):
-        newp = NEWP[len(base_params)]
+      for newp in [NEWP[len(base_params)]] + NEWP_MORE[len(base_params)]:
         try:
             a = g.replace_params(newp)
         except NotImplementedError:
@@ -162,12 +168,12 @@ def chain_case(case):
         for m in case["chain"]:
             b = apply(b, m)
         k += 1
-        if a is None or not (a == b) or tuple(a.params) != tuple(newp):
-            return {"ok": False, "msg": "replace_params on the modified gate differs from modifying the gate built with the new parameters (chain %s)" % case["chain"],
+        if a is None or not (a == b) or tuple(a.params) != tuple(newp) or any(type(x) is not type(y) for x, y in zip(a.params, newp)):
+            return {"ok": False, "msg": "replace_params(%s) on the modified gate differs from modifying the gate built with the new parameters (chain %s)" % (newp, case["chain"]),
                     "expected": str(b), "observed": str(a), "sig": "replace_params", "ops": k}
         if M is not None and not any(trans(m) for m in case["chain"]):
             if not np.allclose(num(a.matrix), num(b.matrix), atol=ATOL):
-                return {"ok": False, "msg": "replace_params: matrices differ", "sig": "replace_params:matrix", "ops": k}
+                return {"ok": False, "msg": "replace_params(%s): matrices differ" % (newp,), "sig": "replace_params:matrix", "ops": k}
     if pending:
         return {**pending, "ops": k}
     return {"ok": True, "nt": bool(case["chain"]) and changed, "ops": max(k, 1), "out": "len%d%s" % (len(case["chain"]), ":T" if any(trans(m) for m in case["chain"]) else "")}
@@ -205,7 +211,7 @@ def cutoff_case(case):
     return {"ok": True, "nt": True, "ops": k, "out": "certified" if deg else "grid-only", "extra": {"certified": int(bool(deg)), "grid": len(pts)}}
 
 
-FUNCS = {"exact_parameters": chain_case, "chains": chain_case, "termination": chain_case, "transcendental_pairs": chain_case, "cutoff": cutoff_case}
+FUNCS = {"special_bases": chain_case, "exact_parameters": chain_case, "chains": chain_case, "termination": chain_case, "transcendental_pairs": chain_case, "cutoff": cutoff_case}
 
 
 def chains(depth, max_trans=1):
@@ -233,6 +239,8 @@ def run(run):
     # at most one power modifier per chain here: integer powers of powers of exact expressions only blow up sympy's inversion (U3(0.3,0.3,pi/3).power(3).power(-1) > 300 s)
     ecases = [{"base": b, "chain": c, "maxq": 4} for b in EXACT_BASES for c in chains(2, max_trans=0) if sum(1 for m in c if m[0] == "power") <= 1]
     secs.append(Section("exact_parameters", ecases, chain_case, horizon=300, chunk=8, desc="all algebraic modifier chains (at most one power) of depth <= 2 over %d bases with exact sympy parameters (pi/3, ...) / root-of-unity entries" % len(EXACT_BASES)))
+    scases = [{"base": b, "chain": c, "maxq": 4} for b in SPECIAL_BASES for c in chains(2, max_trans=0)]
+    secs.append(Section("special_bases", scases, chain_case, horizon=300, chunk=8, desc="all algebraic chains of depth <= 2 over %d bases at special parameter points (identity / Hermitian matrices), then replace_params" % len(SPECIAL_BASES)))
     secs.append(Section("transcendental_pairs", tp, chain_case, horizon=300, chunk=1, desc="transcendental modifier applied on top of a transcendental one"))
     term = [{"base": G("T"), "chain": c, "maxq": 2} for c in ([["exp"]], [["dagger"], ["exp"]], [["power", 2], ["exp"]], [["power", "1/2"]], [["power", "1/3"]])] + \
            [{"base": G("S"), "chain": [["exp"]], "maxq": 2}, {"base": G("PHASE", 2.5), "chain": [["exp"]], "maxq": 2}]
